@@ -33,6 +33,8 @@ pub mod runner;
 pub mod stateful_executor;
 pub mod subprocess_runner;
 pub mod util;
+#[cfg(scrut_verif)]
+pub mod verif_clock;
 
 #[cfg(target_os = "windows")]
 lazy_static! {
